@@ -39,7 +39,22 @@ func runKV(c kvCase) (Outcome, map[string]interface{}) {
 	if sep == "" {
 		sep = ":"
 	}
-	mxj.SetFieldSeparator(sep)
+	// the default separator is established in one of its equivalent documented ways (explicitly, by the
+	// no-argument or ""-argument restore, or by the restore the previous call left behind): a result that
+	// depends on which one was used depends on more than the option state (seed C10-7)
+	applyCount++
+	if sep != ":" {
+		mxj.SetFieldSeparator(sep)
+	} else {
+		switch hash64(fmt.Sprint("sep", applyCount)) % 4 {
+		case 0:
+			mxj.SetFieldSeparator(":")
+		case 1:
+			mxj.SetFieldSeparator()
+		case 2:
+			mxj.SetFieldSeparator("")
+		}
+	}
 	defer mxj.SetFieldSeparator()
 	o := protect(func() Outcome {
 		switch c.Op {
